@@ -1126,7 +1126,8 @@ func (db *DatabaseCollectionWithUser) OnDemandImportForWrite(ctx context.Context
 	}
 	// Check whether the doc requiring import is an SDK delete
 	isDelete := false
-	if doc.Body(ctx) == nil {
+	// A tombstone that still has its _sync xattr is unmarshalled with an empty (non-nil) body and doc.Deleted set
+	if doc.Body(ctx) == nil || doc.Deleted {
 		isDelete = true
 	} else {
 		isDelete = deleted
